@@ -4,7 +4,7 @@ import Rpcx.Basic
   closing/shutdown flags, per-call completion signals, the server-message channel.
   One event = one atomic section of the code (a mutex section, one conn operation):
 
-    register c        send(): the first locked section (fail fast or enter `pending`)
+    register c        send(): the first locked section (fail fast or enter `pending`); SendRaw: its locked insertion
     encodeFail c      send(): codec.Encode failed  → locked lookup/delete/signal
     writeFail c       send(): Conn.Write failed    → locked lookup/delete/signal
     writeOk c         send(): the request is on the wire (one-way calls complete here)
@@ -39,6 +39,9 @@ deriving DecidableEq, Repr
 structure CallRec where
   phase : Phase := .fresh
   oneway : Bool := false
+  raw : Bool := false             -- issued through SendRaw (caller-framed message, reply returned as bytes)
+  written : Bool := false         -- raw calls only: the caller is past its Conn.Write (SendRaw registers, writes and
+                                  -- waits in ONE goroutine: it can return only once its write has returned)
   signals : Nat := 0              -- number of times call.done() ran for it
   outcome : Option Outcome := none
   ret : Option Outcome := none    -- what a blocking caller (Client.Call) returned with: first completion or its ctx error
@@ -61,6 +64,13 @@ def outcomeOf (f : Frame) : Outcome :=
   if f.isError then .svcErr f.tag
   else if !f.decodable then .decodeErr
   else .reply f.tag
+
+/-- what a response frame means for the call it is addressed to: a raw call takes the payload as
+    it is (nothing is decoded, so nothing can fail to decode); a response addressed to a one-way
+    call (no reply value) cannot be decoded into it -/
+def frameOutcome (r : CallRec) (f : Frame) : Outcome :=
+  if r.raw then (if f.isError then .svcErr f.tag else .reply f.tag)
+  else if r.oneway && !f.isError then .decodeErr else outcomeOf f
 
 structure St where
   seq : Nat := 0
@@ -85,11 +95,28 @@ deriving DecidableEq, Repr
 def lookup (p : List (Nat × Nat)) (seq : Nat) : Option Nat := (p.find? (·.1 == seq)).map (·.2)
 def erase (p : List (Nat × Nat)) (seq : Nat) : List (Nat × Nat) := p.filter (·.1 != seq)
 
+/-- what a blocking caller has returned with once its call is completed with `o`: its first
+    completion – except that a SendRaw caller still inside its write has not returned anything yet -/
+def retAfter (r : CallRec) (o : Outcome) : Option Outcome :=
+  if r.raw && !r.written then r.ret else r.ret.orElse (fun _ => some o)
+
 /-- `call.Error = e; call.done()` -/
 def signal (calls : List CallRec) (c : Nat) (o : Outcome) : List CallRec :=
   match calls[c]? with
   | none => calls
-  | some r => calls.set c { r with signals := r.signals + 1, outcome := some o, ret := r.ret.orElse (fun _ => some o) }
+  | some r => calls.set c { r with signals := r.signals + 1, outcome := some o, ret := retAfter r o }
+
+/-- the caller returns `o` now, whatever happened to the call before (SendRaw: the error of its own write) -/
+def setRet (calls : List CallRec) (c : Nat) (o : Outcome) : List CallRec :=
+  match calls[c]? with
+  | none => calls
+  | some r => calls.set c { r with ret := some o }
+
+/-- SendRaw's write returned nil: from now on the caller waits for the completion (or finds it there already) -/
+def markWritten (calls : List CallRec) (c : Nat) : List CallRec :=
+  match calls[c]? with
+  | none => calls
+  | some r => calls.set c { r with written := true, ret := r.ret.orElse (fun _ => r.outcome) }
 
 def setPhase (calls : List CallRec) (c : Nat) (p : Phase) : List CallRec :=
   match calls[c]? with
@@ -131,29 +158,40 @@ def step (s : St) : Ev → St
     | some r =>
       if r.phase ≠ .fresh then s
       else if s.shutdown || s.closing then
-        { s with calls := setPhase (signal s.calls c .shutdownErr) c .finished }
+        -- send() fails fast with ErrShutdown; SendRaw has no such test: it registers, its write to the
+        -- connection (closed in the same critical section that set the flag) fails, and it removes its
+        -- entry again and returns the write error – one step here
+        let cs := setPhase (signal s.calls c (if r.raw then .connErr else .shutdownErr)) c .finished
+        { s with calls := if r.raw then setRet cs c .connErr else cs }
       else
         { s with seq := s.seq + 1, pending := (s.seq, c) :: s.pending, calls := setPhase s.calls c (.registered s.seq) }
     | none => s
   | .encodeFail c =>
     match s.calls[c]? with
     | some r => match r.phase with
-      | .registered q => let s' := removeAndSignal s c q .codecErr
-                         { s' with calls := setPhase s'.calls c .finished }
+      | .registered q =>
+        if r.raw then s    -- SendRaw encodes nothing: the caller supplies the framed message
+        else
+          let s' := removeAndSignal s c q .codecErr
+          { s' with calls := setPhase s'.calls c .finished }
       | _ => s
     | none => s
   | .writeFail c =>
     match s.calls[c]? with
     | some r => match r.phase with
-      | .registered q => let s' := removeAndSignal s c q .connErr
-                         { s' with calls := setPhase s'.calls c .finished }
+      | .registered q => if r.raw && r.written then s else   -- (a write returns once: nil or an error)
+                         let s' := removeAndSignal s c q .connErr
+                         let cs := setPhase s'.calls c .finished
+                         -- (SendRaw returns the error of its write even if the call had been completed meanwhile)
+                         { s' with calls := if r.raw then setRet cs c .connErr else cs }
       | _ => s
     | none => s
   | .writeOk c =>
     match s.calls[c]? with
     | some r => match r.phase with
       | .registered q =>
-        if r.oneway then
+        if r.raw then { s with calls := markWritten s.calls c }   -- (one-way raw sends are not modelled)
+        else if r.oneway then
           let s' := removeAndSignal s c q .none_
           { s' with calls := setPhase s'.calls c .finished }
         else s
@@ -161,7 +199,10 @@ def step (s : St) : Ev → St
     | none => s
   | .ctxDone c =>
     match s.calls[c]? with
-    | some r => if r.ret.isSome then s else markRet (ctxRemove s c r) c
+    | some r =>
+      if r.ret.isSome then s
+      else if r.raw && !r.written then s   -- SendRaw looks at its context only after its write
+      else markRet (ctxRemove s c r) c
     | none => s
   | .frame f =>
     if s.shutdown then s   -- the reader has exited
@@ -170,7 +211,7 @@ def step (s : St) : Ev → St
       | some c =>
         -- a response addressed to a one-way call (no reply value) cannot be decoded into it
         let o := match s.calls[c]? with
-          | some r => if r.oneway && !f.isError then Outcome.decodeErr else outcomeOf f
+          | some r => frameOutcome r f
           | none => outcomeOf f
         { s with pending := erase s.pending f.seq, calls := signal s.calls c o }
       | none => s
@@ -182,7 +223,14 @@ def step (s : St) : Ev → St
 
 def run (s : St) (evs : List Ev) : St := evs.foldl step s
 
-/-- an initial state with `n` calls created by Go(), `oneway` marks the reply-less ones -/
-def init (oneways : List Bool) : St := { calls := oneways.map (fun o => { oneway := o }) }
+/-- an initial state with `n` calls not yet registered; per call: (one-way?, raw?).
+    Sequence numbers are abstract here: a raw call is given the next number like any other call –
+    SendRaw's caller-chosen numbers are ASSUMED distinct from every number in flight (the harness
+    renames accordingly); a collision overwrites the other call's table entry in the code and is
+    outside what C03/C05 state about "the call's own sequence number". -/
+def init (kinds : List (Bool × Bool)) : St := { calls := kinds.map (fun k => { oneway := k.1, raw := k.2 }) }
+
+/-- calls issued through Go/Call only -/
+def plain (oneways : List Bool) : List (Bool × Bool) := oneways.map (fun o => (o, false))
 
 end Rpcx.Mux
